@@ -192,6 +192,22 @@ def edge_targets(ref, h):
     x = _bisect(lambda x: ref.deflections(B, Tx(x)).max() - (ref.deflection_max + EDGE["deflection_edge"]), 0.0, 3 * h)
     out["deflection_edge"] = Tx(x)
     out["above_edge"] = Tz(-EDGE["above_edge"])
+    # a pose inside every limit whose joint deflection exceeds the limit by EDGE once the platform is re-spun by SPIN
+    # (the deflection depends on the plate-fixed tables, which a re-spin rewrites without moving a plate)
+    import copy as _copy
+    spun = _copy.deepcopy(ref)
+    spun.spin(SPIN)
+    for name, mk in (("tilt_x", lambda v: se3.T_from([v, 0, 0], [0, 0, h])),
+                     ("tilt_y", lambda v: se3.T_from([0, v, 0], [0, 0, h])),
+                     ("tilt_nx", lambda v: se3.T_from([-v, 0, 0], [0, 0, h])),
+                     ("offset_x", lambda v: se3.T_from([0, 0, 0], [v * h, 0, h]))):
+        try:
+            v = _bisect(lambda v: spun.deflections(B, mk(v)).max() - (ref.deflection_max + EDGE["deflection_edge"]), 0.0, 1.4)
+        except AssertionError:
+            continue
+        if all(c[0] for c in ref.constraints(B, mk(v)).values()):
+            out["respin_deflection"] = mk(v)
+            break
     return out
 
 
@@ -250,6 +266,9 @@ class Spec:
         for k in self.moves:
             ops.append(Op("move", k, self._move(k)))
         ops.append(Op("spinCustom", SPIN, self._spin()))
+        ops.append(Op("spinCustom_then_validate", SPIN, self._spin(validate=True)))
+        for k in ("in", "mixed"):
+            ops.append(Op("FK_at", {"lengths": k, "fk_mode": 1, "plate_pos": "B"}, self._fk(k, 1, False, at="B")))
         ops.append(Op("validate", None, self._validate(False)))
         ops.append(Op("validate_donothing", None, self._validate(True)))
         ops.append(Op("inverseJacobian", None, self._query("inverseJacobian")))
@@ -273,6 +292,8 @@ class Spec:
             ok = ok and not c[k][name][0] and abs(c[k][name][1] - EDGE[k]) < 1e-6
         if "seed" in c:
             ok = ok and all(v[0] for v in c["seed"].values())
+        if "respin_deflection" in c:
+            ok = ok and all(v[0] for v in c["respin_deflection"].values())
         if not ok:
             raise AssertionError("C10 palette of %s does not sit on the intended sides of the limits: %r" % (self.geo, c))
 
@@ -308,11 +329,14 @@ class Spec:
             return st, {"verdict": None if protect else bool(r[1]), "returned": bool(r[1]), "uninverts": log}
         return f
 
-    def _fk(self, k, mode, reverse):
+    def _fk(self, k, mode, reverse, at=None):
         def f(st):
             L, log = self._lens(k).copy(), []
             with calling(st.sp, log):
-                r = st.sp.FK(L, fk_mode=mode, reverse=reverse)
+                if at is None:
+                    r = st.sp.FK(L, fk_mode=mode, reverse=reverse)
+                else:       # forward kinematics standing on an explicitly given base plate pose
+                    r = st.sp.FK(L, self.tm(list(self.moves[at])), fk_mode=mode)
             return st, {"verdict": bool(r[1]), "uninverts": log}
         return f
 
@@ -324,13 +348,14 @@ class Spec:
             return st, {"verdict": None, "uninverts": log}
         return f
 
-    def _spin(self):
+    def _spin(self, validate=False):
         def f(st):
             log = []
             with calling(st.sp, log):
                 st.sp.spinCustom(SPIN)
+                v = st.sp.validate() if validate else None
             st.ref.spin(SPIN)
-            return st, {"verdict": None, "uninverts": log}
+            return st, {"verdict": None if v is None else bool(v), "uninverts": log}
         return f
 
     def _validate(self, donothing):
